@@ -42,10 +42,12 @@ PLAN = {
              ("core", 200, ["-calls", "3", "-mode", "mixed"]),
              ("control", 10, ["-calls", "2", "-cancel", "-maxcycle", "4"])],
             ["C08"], "a second or third call on an instance whose earlier call retracted a rule, completed, failed, hit the limit or was cancelled"),
-    "C10": ([("patternx", 2, []), ("control", 700, ["-variants", ALLV]), ("salience", 150, [])],
+    "C10": ([("patternx", 2, []), ("control", 700, ["-variants", ALLV]), ("salience", 150, []),
+             ("fault", 250, ["-calls", "3", "-flagp", "0.3"]), ("control", 250, ["-calls", "3", "-variants", "fresh,second,json"]),
+             ("control", 10, ["-calls", "2", "-cancel", "-maxcycle", "4"])],
             ["C10", "C10c"], "an action retracted a known rule or called Complete while other work was pending"),
     "C11": ([("fetch", 1200, ["-mode", "fetch", "-flagp", "0.3", "-variants", ALLV]), ("control", 200, ["-mode", "fetch"]),
-             ("control", 250, ["-mode", "mixed", "-calls", "3"])],
+             ("control", 250, ["-mode", "mixed", "-calls", "3"]), ("memo", 250, ["-mode", "mixed", "-calls", "3", "-variants", "fresh,second"])],
             ["C11"], "a fetch whose rule set holds both matching and non-matching (or removed, or failing) rules"),
     "C13": ([("memo13", 800, ["-variants", ALLV]), ("memo13", 200, ["-calls", "2", "-mode", "mixed"])],
             ["C13"], "a later cycle started while the working memory held the value of the counted method atom shared by the rules (so it is consulted again)"),
@@ -64,7 +66,7 @@ EXPORTED = {
     "reuse": ("GruleReuse.tla", "MCReuse.cfg", "reuse-traces", "call histories on one instance (3 call kinds x 5 endings, depth 3), invariant FreshAtStart"),
 }
 MODEL = {"quick": ("MCEngine.tla", "MCEngineQuick.cfg"), "thorough": ("MCEngine.tla", "MCEngine.cfg")}
-THOROUGH_FACTOR = 12
+THOROUGH_FACTOR = 24
 SESSION_MODEL = "MCEngineSession.cfg"   # several calls (Execute / Fetch) on one instance
 SESSION_PROPS = ("C08", "C11")
 DEDUCTIVE_PROPS = ("C01", "C02", "C03", "C06", "C08", "C11", "C15")
